@@ -24,8 +24,12 @@ def gen_case(ctx, k, P):
     rng = ctx.rng
     par = P > 1 or rng.random() < 0.55
     cls = rng.choice(["parrs", "parrs", "parsa"]) if par else rng.choice(["seqrs", "seqrs", "seqsa"])
-    kind = rng.choice(["graph", "graph", "lap1d_dec", "convdiff", "grid", "tiny", "lap1d", "nonsym_tiny"])
-    if kind == "tiny":
+    kind = rng.choice(["graph", "graph", "lap1d_dec", "convdiff", "grid", "tiny", "lap1d", "nonsym_tiny", "tiny_illcond"])
+    if kind == "tiny_illcond":
+        # coarse already and nearly singular (graph Laplacian + 2^-40..2^-46): the single-level "cycle" is one LU solve whose
+        # residual is far above the tolerance, so the solve must run to its limit and must not claim convergence
+        n = rng.choice([2, 3, 4, 6]); t = cc.graph_lap(rng, n, Fraction(1, 2 ** rng.choice([40, 43, 46])))
+    elif kind == "tiny":
         n = rng.choice([1, 2, 3, 4, 6]); n, t = n, cc.graph_lap(rng, n, Fraction(rng.choice([1, 2]), 2)) if n > 1 else {(0, 0): Fraction(3)}
     elif kind == "nonsym_tiny":
         n = rng.choice([2, 3, 5, 7]); t = cc.nonsym_dd(rng, n)
@@ -48,6 +52,7 @@ def gen_case(ctx, k, P):
                 sweeps=rng.choice([1, 1, 2]), max_coarse=rng.choice([2, 4, 6, 10]), max_levels=rng.choice([25, 25, 2, 3, 5]),
                 tap=(rng.choice([-1, -1, -1, 0, 1, 2]) if par else -1), tol=tol)
     if kind in ("tiny", "nonsym_tiny") and rng.random() < 0.7: opts["max_coarse"] = max(opts["max_coarse"], n)
+    if kind == "tiny_illcond": opts["max_coarse"] = max(opts["max_coarse"], n)
     first_rows = None
     if par and rng.random() < 0.5: first_rows = cc.rand_partition(rng, n, P, allow_empty=(rng.random() < 0.1))
     # right-hand sides: random, A*xs (known solution), small magnitude (the norm cutoff regression), zero
@@ -166,6 +171,11 @@ def judge(ctx, c, res, model_lines):
     # --- O: truth of convergence
     if it < maxit:
         ctx.count("converged")
+        # the claim must at least agree with the solver's own last reported residual (no rounding slack involved: on nearly
+        # singular coarse-already systems the iterates are huge and the recomputed residual carries a slack of its own size)
+        if not isinstance(rep[it], str) and ffloat(rep[it]) > tol * (1 + 1e-9):
+            ctx.signal("O", "solve:truth:" + c["cls"], "solve returned %d < %d iterations although its own last reported residual %.6g is above the tolerance %.3g"
+                       % (it, maxit, ffloat(rep[it]), tol), case=c["line"])
         if trues[it] is None:
             ctx.signal("O", sig0 + ":truth:nonfinite", "solve returned %d < %d iterations with a non-finite vector (reported residual %s)" % (it, maxit, rep[it]), case=c["line"])
         else:
